@@ -71,6 +71,53 @@ def total(chk, obj, origin=""):
 		chk.fail("repr returns a string", f"repr/not-a-string/{kind}", f"{origin}: {type(o.value).__name__}")
 	if snap(obj) != before:
 		chk.fail("repr does not change the object", f"repr/mutates/{kind}", f"{origin}: {short(before, 200)} -> {short(snap(obj), 200)}")
+	placeholder_for_printable(chk, obj, o.value, kind, origin)
+
+
+def _printable(v):
+	"""can this cell's text be produced by the cell's own hooks (str, format for floats, isoformat for dates)"""
+	try:
+		str(v)
+		repr(v)
+		if isinstance(v, float):
+			format(v, ".1f"); format(v, "g")
+		if isinstance(v, date):
+			v.isoformat()
+		return True
+	except Exception:
+		return False
+
+
+def placeholder_for_printable(chk, obj, text, kind, origin):
+	"""the `<TypeName>` placeholder stands for a cell whose own text cannot be produced; every cell that CAN say what it is is shown by that text, not by its type"""
+	cols = obj.cols() if isinstance(obj, Table) else [obj]
+	cells = []
+	for c in cols:
+		if isinstance(c, Table):
+			return
+		cells.extend(c._underlying[:400])
+	if any(isinstance(v, Vector) for v in cells):
+		return
+	by_type = {}
+	for v in cells:
+		if v is None:
+			continue
+		by_type.setdefault(type(v).__name__, []).append(v)
+	body = [ln for ln in text.split("\n") if not ln.lstrip().startswith("#")]
+	for tname, vs in by_type.items():
+		if not all(_printable(v) for v in vs):
+			continue
+		token = f"<{tname}>"
+		def mentions(v):
+			try:
+				return token in (v if isinstance(v, str) else repr(v))
+			except Exception:
+				return False
+		if any(mentions(v) for v in cells):
+			continue
+		if any(re.search(r"(^|\s)" + re.escape(token) + r"(\s|$)", ln) for ln in body):
+			chk.fail("repr shows the data", f"repr/placeholder-for-a-printable-cell/{kind}/{tname}", f"{origin}: a cell of type {tname} whose str() / format() / isoformat() work is shown as {token}; cells {short(vs, 120)}\n{text[:400]}")
+			return
 
 
 def setup_limits(spec):
@@ -569,6 +616,8 @@ def run_built_by_history(chk, spec):
 	if before is not None and snap(obj) != before:
 		chk.fail("repr does not change the object", f"repr/mutates/{what}", f"{spec!r}")
 		return
+	if not what.startswith("hostile"):
+		placeholder_for_printable(chk, obj, o.value, "table" if isinstance(obj, Table) else "vector", what)
 	if size is not None and size not in o.value:
 		chk.fail("the footer states the true element count or rows x columns", f"repr/footer-count/{what}", f"{spec!r}: expected {size!r} in the footer:\n{o.value}")
 
